@@ -37,3 +37,41 @@ Proof. intros id []; reflexivity. Qed.
 Theorem source_visit : forall (ky : key) (v : obj),
   apply_action oval (Put None None) ky v = Some (src_default_visit ky v).
 Proof. reflexivity. Qed.
+
+(* get_path: the source's lookup step (subscript, the two except clauses, the
+   int(seg) retry) is the model's [getitem], every failure being PathAccessError *)
+Theorem source_get_path_step : forall defs cur seg,
+  src_get_path_step defs cur seg =
+  match getitem defs cur seg with Ok c => Ok c | Raise _ => Raise PathAccessError end.
+Proof.
+  intros defs cur seg. unfold src_get_path_step, raw_getitem, getitem.
+  destruct (resolve defs cur) as [n|id k items|id k|k|id k|w];
+    try (destruct seg as [|i|t|i]; reflexivity).
+  destruct k.
+  - destruct seg as [|i|t|i]; cbn; try reflexivity; destruct (nth_error items i) as [[k' c]|]; reflexivity.
+  - destruct seg as [|i|t|i]; cbn; try reflexivity; destruct (nth_error items i) as [[k' c]|]; reflexivity.
+  - destruct (kd_get items seg); reflexivity.
+  - destruct seg as [|i|t|i]; reflexivity.
+  - destruct seg as [|i|t|i]; reflexivity.
+Qed.
+
+(* research: the enter wrapper, folded over the enter calls, is [reported_x] *)
+Fixpoint research_fold (q : mquery_fn) (reraise : bool) (lg : list event) : res (list (path * oref)) :=
+  match lg with
+  | [] => Ok []
+  | EEnter p k r s :: rest =>
+      match src_research_enter (q p k s) reraise p k r with
+      | RReport p' r' => match research_fold q reraise rest with Ok l => Ok ((p', r') :: l) | Raise e => Raise e end
+      | RSkip => research_fold q reraise rest
+      | RRaise => Raise QueryError
+      end
+  | _ :: rest => research_fold q reraise rest
+  end.
+
+Theorem source_research : forall q reraise lg, research_fold q reraise lg = reported_x q reraise lg.
+Proof.
+  intros q reraise. induction lg as [|e rest IH]; [reflexivity|].
+  destruct e as [p k r s| |]; cbn [research_fold reported_x]; try exact IH.
+  unfold src_research_enter. destruct (q p k s) as [[|]|]; [rewrite IH; reflexivity|exact IH|].
+  destruct reraise; [reflexivity|exact IH].
+Qed.
